@@ -242,7 +242,7 @@ def build_cli(san=False):
         if r.returncode:
             raise BuildError("cmake build failed:\n" + (r.stdout + r.stderr)[-3000:])
         open(os.path.join(d, ".ok"), "w").close()
-        _prune(name, keep=2)
+        _prune(name, keep=5)
         return d
     finally:
         lk.close()
